@@ -13,7 +13,7 @@ from . import gen
 def plan(tier, seed, *, quick_cells=12, thorough_cells=16, thorough_shapes=((4, 5), (5, 4)),
          thorough_multisets=((5, 5), (6, 4)), quick_multisets=(),
          hyp_quick=(12, 250), hyp_thorough=(16, 2500), profiles=('small', 'medium'),
-         block=4096, wide=False, mid=True, tall=False, fixed=()):
+         block=4096, wide=False, mid=True, tall=False, odd=False, fixed=()):
     tasks = []
     if tier == 'quick':
         tasks += gen.exhaustive_blocks(quick_cells, block=block)
@@ -42,6 +42,11 @@ def plan(tier, seed, *, quick_cells=12, thorough_cells=16, thorough_shapes=((4, 
         for k in range(n_mid):
             tasks.append({'kind': 'hyp', 'profile': 'mid', 'examples': ex_mid, 'shard': 200 + k,
                           'seed': seed * 1000 + 200 + k})
+    if odd:
+        n_odd, ex_odd = (2, 60) if tier == 'quick' else (6, 600)
+        for k in range(n_odd):
+            tasks.append({'kind': 'hyp', 'profile': 'odd', 'examples': ex_odd, 'shard': 400 + k,
+                          'seed': seed * 1000 + 400 + k})
     if tall:
         n_tall, ex_tall = tall if isinstance(tall, tuple) else ((2, 8) if tier == 'quick' else (6, 60))
         for k in range(n_tall):
@@ -89,7 +94,7 @@ def run(task, ctx, check_one, strategy_of=None, fixed_cases=None):
         ctx.guarded(loop)
         ctx.count('multiset_tables', task['stop'] - task['start'])
     elif kind == 'hyp':
-        if strategy_of is not None and task['profile'] not in ('wide', 'mid', 'tall'):
+        if strategy_of is not None and task['profile'] not in ('wide', 'mid', 'tall', 'odd'):
             strat = strategy_of(task)
         elif task['profile'] == 'wide':
             strat = gen.wide_tables()
@@ -97,6 +102,8 @@ def run(task, ctx, check_one, strategy_of=None, fixed_cases=None):
             strat = gen.mid_tables()
         elif task['profile'] == 'tall':
             strat = gen.tall_tables()
+        elif task['profile'] == 'odd':
+            strat = gen.odd_tables()
         else:
             strat = gen.tables(task['profile'])
         deep = task['profile'] != 'tall'   # tall tables: one plain pass (the history devices cost minutes at this size)
